@@ -14,12 +14,12 @@ FRAME_CHOICES_QUICK = [0, 1, 7, 100, 300]
 FRAME_CHOICES_LONG = [8191, 8192, 8193, 12345]
 
 
-def make_adm(rng, n_layout_names, layout_channel_names, passthrough=None):
+def make_adm(rng, n_layout_names, layout_channel_names, passthrough=None, special=None):
     """Build an ADM document + number of input tracks. Returns (adm, n_tracks, info)."""
     from ear.fileio.adm.builder import ADMBuilder
     from ear.fileio.adm.elements import (AudioBlockFormatObjects, AudioBlockFormatDirectSpeakers,
                                          ObjectPolarPosition, ObjectCartesianPosition, DirectSpeakerPolarPosition,
-                                         BoundCoordinate, JumpPosition)
+                                         BoundCoordinate, JumpPosition, ScreenEdgeLock)
     from ear.fileio.adm.generate_ids import generate_ids
 
     b = ADMBuilder()
@@ -31,8 +31,10 @@ def make_adm(rng, n_layout_names, layout_channel_names, passthrough=None):
     track = 0
 
     def objects_blocks(rounded):
+        lock = lambda: (ScreenEdgeLock(horizontal=rng.choice(["left", "right"])) if rng.random() < 0.35
+                        else ScreenEdgeLock())
         pos = lambda: (ObjectPolarPosition(azimuth=float(rng.randint(-180, 180)), elevation=float(rng.randint(-30, 60)),
-                                           distance=1.0)
+                                           distance=1.0, screenEdgeLock=lock())
                        if rng.random() < 0.7 else
                        ObjectCartesianPosition(X=rng.randint(-10, 10) / 10.0, Y=rng.randint(-10, 10) / 10.0,
                                                Z=rng.randint(-10, 10) / 10.0))
@@ -40,7 +42,8 @@ def make_adm(rng, n_layout_names, layout_channel_names, passthrough=None):
         cart = isinstance(p, ObjectCartesianPosition)
         if rng.random() < 0.5:
             return [AudioBlockFormatObjects(position=p, cartesian=cart, gain=rng.choice([1.0, 0.5, 0.25]),
-                                            diffuse=rng.choice([0.0, 0.0, 0.5, 1.0]))]
+                                            diffuse=rng.choice([0.0, 0.0, 0.5, 1.0]),
+                                            screenRef=(not cart) and rng.random() < 0.3)]
         mk = (lambda: ObjectCartesianPosition(X=rng.randint(-10, 10) / 10.0, Y=rng.randint(-10, 10) / 10.0, Z=0.0)) if cart \
             else (lambda: ObjectPolarPosition(azimuth=float(rng.randint(-180, 180)), elevation=0.0, distance=1.0))
         d1 = Fraction(rng.randint(1, 40), 10000)
@@ -53,6 +56,14 @@ def make_adm(rng, n_layout_names, layout_channel_names, passthrough=None):
 
     def add_item(parent, rounded=False):
         nonlocal track
+        if special == "edgelock":  # content whose rendering depends on the reproduction screen
+            bf = AudioBlockFormatObjects(position=ObjectPolarPosition(
+                azimuth=float(rng.choice([0, 10, -20])), elevation=0.0, distance=1.0,
+                screenEdgeLock=ScreenEdgeLock(horizontal=rng.choice(["left", "right"]))))
+            it = b.create_item_objects(track, "lock%d" % track, parent=parent, block_formats=[bf])
+            track += 1
+            info["items"].append("obj:edgelock")
+            return it
         kind = rng.choice(["ds", "ds", "obj", "obj", "hoa"]) if passthrough is None else "ds"
         if kind == "ds":
             name = rng.choice(layout_channel_names + ["M+030", "M-030", "LFE1", "M+110"]) if passthrough is None else passthrough
@@ -77,7 +88,7 @@ def make_adm(rng, n_layout_names, layout_channel_names, passthrough=None):
 
     rounded = rng.random() < 0.25
     info["rounded"] = rounded
-    n_items = rng.randint(1, 3) if passthrough is None else 1
+    n_items = rng.randint(1, 3) if passthrough is None and special is None else 1
     items1 = [add_item(c1, rounded and i == 0) for i in range(n_items)]
     comp = None
     if rng.random() < 0.3 and passthrough is None:
@@ -96,19 +107,45 @@ def make_adm(rng, n_layout_names, layout_channel_names, passthrough=None):
     return b.adm, track, prog1, prog2, comp, info
 
 
+SCREENS = {
+    # name -> (yaml text, constructor kwargs or None for "no screen"); "default" = key absent
+    "null": ("screen: null\n", None),
+    "narrow": ("screen:\n  type: polar\n  aspectRatio: 1.78\n  centrePosition: {az: 0.0, el: 0.0, r: 1.0}\n  widthAzimuth: 40.0\n",
+               dict(aspectRatio=1.78, az=0.0, el=0.0, r=1.0, widthAzimuth=40.0)),
+    "offset": ("screen:\n  type: polar\n  aspectRatio: 1.5\n  centrePosition: {az: 10.0, el: 5.0, r: 1.0}\n  widthAzimuth: 30.0\n",
+               dict(aspectRatio=1.5, az=10.0, el=5.0, r=1.0, widthAzimuth=30.0)),
+}
+
+
+def reference_layout(lay, screen_kind):
+    """The layout the speakers file describes, built WITHOUT the library's with_real_layout / YAML loader
+    (speaker positions in the generated files are the nominal ones, so only the screen can differ)."""
+    from attr import evolve
+    from ear.common import PolarScreen, PolarPosition
+    if screen_kind == "default":
+        return lay
+    kw = SCREENS[screen_kind][1]
+    if kw is None:
+        return evolve(lay, screen=None)
+    return evolve(lay, screen=PolarScreen(aspectRatio=kw["aspectRatio"],
+                                          centrePosition=PolarPosition(kw["az"], kw["el"], kw["r"]),
+                                          widthAzimuth=kw["widthAzimuth"]))
+
+
 def speakers_variant(rng, lay):
-    """Return (yaml text or None, speakers list [(channel, names, gain)] or None, kind)."""
+    """Return (yaml text or None, speakers list [(channel, names, gain)] or None, kind, screen kind)."""
     names = lay.channel_names
     k = rng.choice(["none", "none", "perm", "perm", "gains", "extra", "screen-only", "positions"])
+    screen_kind = rng.choice(["default", "default", "null", "narrow", "offset"]) if k != "none" else "default"
     if k == "none":
-        return None, None, k
+        return None, None, k, "default"
     if k == "screen-only":
-        return "screen:\n  type: polar\n  aspectRatio: 1.78\n  centrePosition: {az: 0.0, el: 0.0, r: 1.0}\n  widthAzimuth: 40.0\n", None, k
+        screen_kind = rng.choice(["null", "narrow", "offset"])
+        return SCREENS[screen_kind][0], None, k + ":" + screen_kind, screen_kind
     chans = list(range(len(names)))
     if k in ("perm", "gains", "extra", "positions"):
         rng.shuffle(chans)
     if k == "extra":
-        chans = [c + rng.randint(0, 2) * 0 for c in chans]
         off = rng.randint(1, 3)
         chans = [c + off if c >= len(names) // 2 else c for c in chans]  # leaves unused output channels
     sp = []
@@ -121,7 +158,10 @@ def speakers_variant(rng, lay):
             pp = channel.polar_nominal_position
             entry += ", position: {az: %r, el: %r, r: 1.0}" % (float(pp.azimuth), float(pp.elevation))
         lines.append(entry + "}")
-    return "\n".join(lines) + "\n", sp, k
+    text = "\n".join(lines) + "\n"
+    if screen_kind != "default":
+        text += SCREENS[screen_kind][0]
+    return text, sp, k + ("" if screen_kind == "default" else ":" + screen_kind), screen_kind
 
 
 def write_input(path, adm, n_tracks, frames, bitdepth, rate, rng, full_scale=False):
@@ -211,7 +251,7 @@ class C04(Spec):
             "rounded durations) x layout x speakers file variant x output gain x options; a case is one file-to-file run; "
             "non-trivial = non-empty audio and at least one non-zero output sample; distinct by all parameters")
 
-    def _one(self, ctx, tmp, idx, driver_lines, metas, long_frames=False, exact_overload=None):
+    def _one(self, ctx, tmp, idx, driver_lines, metas, long_frames=False, exact_overload=None, screen_probe=None):
         from ear.core import bs2051, layout as layout_mod
         from ear.cmdline.render_file import OfflineRenderDriver
         from ear.fileio import openBw64
@@ -221,11 +261,15 @@ class C04(Spec):
         lay = bs2051.get_layout(lname)
         # exact overload probes: one DirectSpeakers channel passed through to the like-named loudspeaker
         pt = rng.choice([n for n in lay.channel_names if not n.startswith("LFE")]) if exact_overload else None
-        adm, n_tracks, prog1, prog2, comp, info = make_adm(rng, None, lay.channel_names, passthrough=pt)
+        adm, n_tracks, prog1, prog2, comp, info = make_adm(rng, None, lay.channel_names, passthrough=pt,
+                                                           special="edgelock" if screen_probe else None)
         bitdepth = rng.choice([16, 24, 32])
         rate = rng.choice([48000, 44100])
         frames = rng.choice(FRAME_CHOICES_LONG if long_frames else FRAME_CHOICES_QUICK)
-        yaml_text, speakers, sk = speakers_variant(rng, lay)
+        yaml_text, speakers, sk, screen_kind = speakers_variant(rng, lay)
+        if screen_probe:  # a speakers file whose screen entry is `screen_probe`, with and without a speakers list
+            while screen_kind != screen_probe:
+                yaml_text, speakers, sk, screen_kind = speakers_variant(rng, lay)
         gain_db = rng.choice([0.0, 0.0, -6.0, 3.0, round(rng.uniform(-12, 6), 2)])
         fail = rng.random() < 0.5
         conversion = rng.choice([None, None, "to_cartesian", "to_polar"])
@@ -247,6 +291,8 @@ class C04(Spec):
             if speakers is not None:  # unit gains so that the peak is exactly full scale at 0 dB
                 speakers = [(c, n, 1.0) for c, n, _ in speakers]
                 yaml_text = "speakers:\n" + "".join("  - {channel: %d, names: %s, gain_linear: 1.0}\n" % (c, n[0]) for c, n, _ in speakers)
+                if screen_kind != "default":
+                    yaml_text += SCREENS[screen_kind][0]
             frames = max(frames, 7)
         in_path = os.path.join(tmp, "in%d.wav" % idx)
         out_path = os.path.join(tmp, "out%d.wav" % idx)
@@ -273,8 +319,7 @@ class C04(Spec):
                 else:
                     err = e
             # ---- reference: in-memory rendering + own routing
-            real_layout = layout_mod.load_real_layout(io.StringIO(yaml_text)) if yaml_text else None
-            lay_real = lay.with_real_layout(real_layout)[0] if real_layout else lay
+            lay_real = reference_layout(lay, screen_kind)
             try:
                 blocks, rate2, bd2, n_in = in_memory(in_path, lay_real, prog_id, comp_ids, conversion, fix)
             except Exception as e:  # reference itself rejects the input: outside the quantifier
@@ -371,7 +416,7 @@ class C04(Spec):
         tmp = tempfile.mkdtemp(prefix="c04_")
         try:
             lines, metas = [], []
-            n = 10 if ctx.quick else 150
+            n = 8 if ctx.quick else 150
             for i in range(n):
                 self._one(ctx, tmp, i, lines, metas)
             for i, mode in enumerate(["at", "above-neg", "at-neg", "above-pos", "above"] if ctx.quick
@@ -379,6 +424,8 @@ class C04(Spec):
                 self._one(ctx, tmp, 1000 + i, lines, metas, exact_overload=mode)
             for i in range(1 if ctx.quick else 12):
                 self._one(ctx, tmp, 2000 + i, lines, metas, long_frames=True)
+            for i, sk in enumerate(["null", "narrow", "null"] if ctx.quick else ["null", "narrow", "offset"] * 6):
+                self._one(ctx, tmp, 3000 + i, lines, metas, screen_probe=sk)
             self._flush(ctx, driver, lines, metas)
         finally:
             shutil.rmtree(tmp, ignore_errors=True)
